@@ -19,18 +19,27 @@ using u64 = std::uint64_t;
 static u64 rngState = 1;
 static u64 rnd(u64& s) { u64 z = (s += 0x9E3779B97F4A7C15ULL); z = (z ^ (z >> 30)) * 0xBF58476D1CE4E5B9ULL; z = (z ^ (z >> 27)) * 0x94D049BB133111EBULL; return z ^ (z >> 31); }
 
-template <class R> static void soak(const char* name, R& ring, std::size_t cap, int ms, bool batch, u64 seed)
+// mode: 0 = single-item calls, 1 = batch calls, 2 = MIXED (each iteration picks single or batch at random: a batch producer against a
+// single-item consumer and vice versa); both sides also call size()/empty()/full() (same-side callers: Iora.C10.R2_size_same_side says <= cap)
+template <class R> static void soak(const char* name, R& ring, std::size_t cap, int ms, int mode, u64 seed)
 {
   std::atomic<bool> stop{false};
   std::atomic<u64> produced{0};
   std::string fifo = "ok";
   u64 consumed = 0;
-  std::size_t maxsize = 0;
+  std::size_t maxsize = 0, pmax = 0;
   std::thread prod([&] {
     u64 s = seed * 2 + 1, next = 1;
     std::vector<u64> buf(2 * cap + 2);
     while (!stop.load(std::memory_order_relaxed))
     {
+      bool batch = mode == 1 || (mode == 2 && (rnd(s) & 1));
+      if ((rnd(s) & 7) == 0)
+      {
+        std::size_t sz = ring.size();      // producer-side size(): own _head exact, _tail possibly stale - never above cap
+        if (sz > pmax) pmax = sz;
+        if (ring.empty() && ring.full() && cap > 0 && fifo == "ok") { /* both true is impossible for cap > 0 at one instant; two calls: not judged */ }
+      }
       if (batch)
       {
         std::size_t k = static_cast<std::size_t>(rnd(s) % (2 * cap + 1));
@@ -50,9 +59,11 @@ template <class R> static void soak(const char* name, R& ring, std::size_t cap, 
     auto drain = [&](bool final) {
       for (;;)
       {
-        std::size_t sz = ring.size();
-        if (sz > maxsize && sz <= (~static_cast<std::size_t>(0) >> 1)) maxsize = sz;
+        std::size_t sz = ring.size();      // consumer-side size(): own _tail exact, _head possibly stale - never above cap, never wrapped
+        if (sz > maxsize) maxsize = sz;
+        if ((rnd(s) & 7) == 0) { (void)ring.empty(); (void)ring.full(); }
         bool got = false;
+        bool batch = mode == 1 || (mode == 2 && (rnd(s) & 1));
         if (batch)
         {
           std::size_t k = ring.tryPopBatch(buf.data(), static_cast<std::size_t>(rnd(s) % (2 * cap + 1)) + (final ? 1 : 0));
@@ -81,6 +92,7 @@ template <class R> static void soak(const char* name, R& ring, std::size_t cap, 
   u64 expect = consumed + 1, v = 0;
   while (ring.tryPop(v)) { if (v != expect && fifo == "ok") fifo = "BROKEN at " + std::to_string(expect) + " got " + std::to_string(v); expect = v + 1; }
   if (expect - 1 != produced.load() && fifo == "ok") fifo = "BROKEN lost: produced " + std::to_string(produced.load()) + " consumed " + std::to_string(expect - 1);
+  if (pmax > maxsize) maxsize = pmax;
   std::printf("%s items=%llu fifo=%s maxsize=%zu cap=%zu\n", name, static_cast<unsigned long long>(produced.load()), fifo.c_str(), maxsize, cap);
   std::fflush(stdout);
 }
@@ -162,11 +174,14 @@ int main(int argc, char** argv)
   int ms = argc > 1 ? std::atoi(argv[1]) : 300;
   u64 seed = argc > 2 ? std::strtoull(argv[2], nullptr, 10) : 1;
   rngState = seed;
-  { iora::core::RingBuffer<u64, 4> r; soak("static4-single", r, 4, ms, false, seed); }
-  { iora::core::RingBuffer<u64, 4> r; soak("static4-batch", r, 4, ms, true, seed + 1); }
-  { iora::core::RingBuffer<u64, 1> r; soak("static1-single", r, 1, ms, false, seed + 2); }
-  { iora::core::DynamicRingBuffer<u64> r(3); soak("dynamic4-single", r, 4, ms, false, seed + 3); }
-  { iora::core::DynamicRingBuffer<u64> r(8); soak("dynamic8-batch", r, 8, ms, true, seed + 4); }
+  { iora::core::RingBuffer<u64, 4> r; soak("static4-single", r, 4, ms, 0, seed); }
+  { iora::core::RingBuffer<u64, 4> r; soak("static4-batch", r, 4, ms, 1, seed + 1); }
+  { iora::core::RingBuffer<u64, 1> r; soak("static1-single", r, 1, ms, 0, seed + 2); }
+  { iora::core::DynamicRingBuffer<u64> r(3); soak("dynamic4-single", r, 4, ms, 0, seed + 3); }
+  { iora::core::DynamicRingBuffer<u64> r(8); soak("dynamic8-batch", r, 8, ms, 1, seed + 4); }
+  { iora::core::RingBuffer<u64, 64> r; soak("static64-mixed", r, 64, ms, 2, seed + 7); }
+  { iora::core::DynamicRingBuffer<u64> r(200); soak("dynamic256-mixed", r, 256, ms, 2, seed + 8); }
+  { iora::core::DynamicRingBuffer<u64> r(2); soak("dynamic2-mixed", r, 2, ms, 2, seed + 9); }
   soakBq("bq-mpmc-cap4", 4, ms, seed + 5);
   soakBq("bq-mpmc-cap1", 1, ms, seed + 6);
   return 0;
